@@ -10,7 +10,11 @@ RULE = ("(a) neighbor at scale: score() on 200-2000 rows quick / 2000-65536 thor
         "groupings (<= 400 units when grouped), accuracy utility, real-valued features through a recorded distance matrix; the exact right-hand side "
         "(mean utility of each validation point's nearest row's label minus mean element-wise null) is computed with integers/Fractions from an "
         "independent argmin; requirement |sum(scores) - exact| <= 1e-9*(1+scale); (b) bruteforce and (c) untruncated montecarlo with arbitrary table "
-        "utilities on random DNF provenances (n <= 7): sum = v(all units) - v(no unit). Non-trivial = >= 2 classes present and the right-hand side non-zero; "
+        "utilities on random DNF provenances (n <= 7): sum = v(all units) - v(no unit); (d) neighbor (K=1) on EXPLICIT map/fork provenances with 3-4 candidates "
+        "(Provenance(units=n, candidates=C, data=[[unit, candidate], ...]), 6-1500 rows, 2-300 units, units owning rows under several candidate values or none), in the "
+        "default world (every unit takes candidate 1) and in explicit worlds passed to score() as a key list or an index array: the full training set of a world is the "
+        "rows whose candidate is the world's candidate of their unit; right-hand side = mean utility of the nearest such row's label minus the null utility, from an "
+        "independent argmin over exactly those rows. Non-trivial = >= 2 classes present and the right-hand side non-zero; "
         "distinct = distinct generated datasets.")
 
 
@@ -72,6 +76,57 @@ def neighbor_scale(ctx, I, sizes, budget):
         if ctx.elapsed() > budget:
             break
     ctx.extra["efficiency_error_by_rows"] = errs
+
+
+def multicand_efficiency(ctx, I, sizes):
+    """(d) several candidate values per unit: only the rows whose literal (unit == candidate) holds in the world are part of the training set"""
+    rng = ctx.rng
+    from sklearn.neighbors import KNeighborsClassifier
+    from props import datasets as dsm
+    for n_units, m in sizes:
+        c = rng.randint(2, 4)
+        mc = dsm.rand_multicand(rng, n_units=n_units)
+        n_rows = mc["n_rows"]
+        y = np.array(dsm.multicand_labels(rng, mc, list(range(c))))
+        nprng = np.random.RandomState(rng.randrange(2 ** 31))
+        X = nprng.rand(n_rows, 3)
+        Xv = nprng.rand(m, 3)
+        classes = sorted(set(y.tolist()))
+        yv = np.array([rng.choice(classes) for _ in range(m)])
+        if len(classes) > 1 and rng.random() < 0.4:
+            yv = np.array([cl if cl != classes[-1] else classes[0] for cl in yv.tolist()])      # a training class absent from validation: null utility 0
+        D = np.sqrt(((X[:, None, :] - Xv[None, :, :]) ** 2).sum(axis=2))
+        prov, _ = dsm.multicand_prov(I, mc)
+        kw = dsm.world_arg(rng, mc)
+        util = I["utility"].SklearnModelAccuracy(KNeighborsClassifier(n_neighbors=1))
+        small = n_rows <= 40
+        case = dict(part="multi-candidate", nUnits=n_units, nCands=mc["n_cands"], world=mc["world"], world_as=(type(kw["world"]).__name__ if kw else "default"),
+                    n_rows=n_rows, m=m, lits=(mc["lits"] if small else mc["lits"][:20]), rng="np.RandomState from VERIF_SEED")
+        if small:
+            case.update(y_train=y.tolist(), y_val=yv.tolist(), dist=D.tolist())
+        Xv_idx = np.hstack([np.arange(m, dtype=float).reshape(-1, 1), Xv])
+        try:
+            imp = I["imp"].ShapleyImportance(method="neighbor", utility=util, nn_k=1,
+                                             nn_distance=lambda A, B, D=D: D[:, np.asarray(B)[:, 0].astype(int)].copy())
+            scores = np.asarray(imp.fit(X, y, provenance=prov).score(Xv_idx, yv, **kw), dtype=float)
+        except Exception as e:  # noqa
+            ctx.mismatch("score() raised on a multi-candidate map/fork provenance", case, impl=exc_name(e) + repr(e))
+            continue
+        # right-hand side, independently: the rows of the world's full training set, their nearest one per validation point
+        rows = [r for r, (u, cand) in enumerate(mc["lits"]) if cand == mc["wvals"][u]]
+        null = min(Fraction(int(np.sum(yv == cl)), m) for cl in classes)
+        hits = 0
+        for j in range(m):
+            best = min(rows, key=lambda r: (D[r, j], r))
+            hits += int(y[best] == yv[j])
+        exact = Fraction(hits, m) - null
+        total = Fraction(float(np.sum(scores)))
+        ctx.case(("multicand", n_units, m, n_rows, hits, str(mc["world"])[:60]), nontrivial=(exact != 0 and len(classes) >= 2), sample=dict(case, exact=str(exact), got=float(total)),
+                 part="neighbor-multi-candidate", world=("default" if not kw else "explicit-" + type(kw["world"]).__name__), candidates=mc["n_cands"])
+        ctx.maxi(rows=n_rows, units=n_units)
+        if len(scores) != n_units or not np.all(np.isfinite(scores)) or abs(total - exact) > Fraction(1, 10 ** 9) * 2:
+            ctx.mismatch("neighbor scores on a multi-candidate map/fork provenance do not sum to the utility of the world's full training set minus the null utility",
+                         case, impl=float(total), spec=str(exact))
 
 
 def default_distance_offset(ctx, I, n_cases):
@@ -174,6 +229,8 @@ def run(ctx):
         sizes = [(2000, 100), (5000, 100), (10000, 200), (20000, 300), (40000, 100), (65536, 50)]
     neighbor_scale(ctx, I, sizes, 400 if q else 2400)
     default_distance_offset(ctx, I, 4 if q else 30)
+    mc_sizes = [(2, 3), (3, 4), (4, 5), (5, 6), (6, 8), (8, 10), (12, 10), (25, 15), (60, 20), (150, 20)] + ([] if q else [(rng_n, 30) for rng_n in (3, 5, 7, 40, 100, 200, 300)] * 4)
+    multicand_efficiency(ctx, I, mc_sizes)
     small_games(ctx, I, 40 if q else 400, 800 if q else 3600)
     return ctx.finish("proof", "C06_neighbor(_point), C06_brute, C04_telescope: in exact arithmetic the modelled scores of each method sum to v(all) - v(none) at every size. "
                       "Floating-point accuracy: C13_round_kernel bounds every neighbor score's rounding error by ((1+2^-53)^(n+m+3)-1)*A_u under the standard model of binary64 arithmetic, at every size; the sum itself is measured here against exact integer right-hand sides on a size ladder.", RULE)
